@@ -196,6 +196,52 @@ def apply(cls, real, ref, op):
     return real, ref, msg
 
 
+def construction_cases():
+    """construction from pairs / mappings / keywords in which the SAME name comes in several spellings, repeated and interleaved: the result
+    is the dictionary obtained by assigning the entries one after the other at the upper-cased name (last value wins, first position kept)"""
+    out = []
+    seqs_ = []
+    spell = ["a", "A", b"a", "b", "B"]
+    for n in (2, 3, 4):
+        for combo in itertools.product(spell, repeat=n):
+            seqs_.append([(k, i) for i, k in enumerate(combo)])
+    for cls in classes():
+        for pairs in seqs_:
+            exp, order = {}, []
+            for k, v in pairs:
+                kk = K(k)
+                if kk not in exp:
+                    order.append(kk)
+                exp[kk] = v
+            try:
+                r = cls(pairs)
+                got = list(r.items())
+            except Exception as e:  # noqa
+                out.append({"witness": {"ctor": True, "class": cls.__name__, "pairs": repr(pairs)}, "detail": f"{cls.__name__}({pairs!r}) raises {type(e).__name__}: {e}"})
+                continue
+            if got != [(k, exp[k]) for k in order]:
+                out.append({"witness": {"ctor": True, "class": cls.__name__, "pairs": repr(pairs)},
+                            "detail": f"{cls.__name__}({pairs!r}) has items {got!r}, assigning the entries one by one gives {[(k, exp[k]) for k in order]!r}"})
+        # a mapping plus keywords: the keywords come last
+        for m, kw in (({"TZID": 1, "tzid": 2}, {"TZID": 3}), ({"a": 1}, {"A": 2, "a": 3}), ({"A": 1, "b": 2}, {"a": 9})):
+            exp, order = {}, []
+            for k, v in list(m.items()) + list(kw.items()):
+                kk = K(k)
+                if kk not in exp:
+                    order.append(kk)
+                exp[kk] = v
+            try:
+                got = list(cls(m, **kw).items())
+            except Exception as e:  # noqa
+                got = f"raises {type(e).__name__}"
+            if got != [(k, exp[k]) for k in order]:
+                out.append({"witness": {"ctor": True, "class": cls.__name__, "pairs": repr((m, kw))},
+                            "detail": f"{cls.__name__}({m!r}, **{kw!r}) has items {got!r}, expected {[(k, exp[k]) for k in order]!r}"})
+        if len(out) > 6:
+            break
+    return out, len(seqs_) * len(classes())
+
+
 def classes():
     from icalendar.caselessdict import CaselessDict
     from icalendar.parser import Parameters
@@ -253,6 +299,10 @@ def run_sequences(bounded, tier, seed):
         msg = run_seq(cls, seq)
         if msg and len(fails) < 20:
             fails.setdefault(msg.split(" ")[0][:24] + cls.__name__, {"witness": {"class": cls.__name__, "ops": repr(seq)}, "detail": msg})
+    kf, kn = construction_cases()
+    cases += kn
+    for f in kf[:4]:
+        fails.setdefault("ctor" + str(len(fails)), f)
     cf, cn = canon_enum()
     cases += cn
     for f in cf:
